@@ -26,6 +26,12 @@ def generate(rng, tier):
                 d["X"]["Offset"] = rng.choice([0.1, 0.2, 0.3, 0.01, -0.1, 0.07])
             if i % 5 == 0:
                 d["style"], d["x"] = "exact", sorted(d["x"])
+            if i % 4 == 1:       # several datasets sharing the point Q = 0.00 (and its neighbours)
+                d["style"] = "from0"
+                d["x"] = [round(0.01 * k, 2) for k in range(len(d["x"]))]
+                d["Qmin"] = None if d["Qmin"] is None else 0.0
+                if d["X"] is not None and "Offset" in d["X"]:
+                    d["X"]["Offset"] = rng.choice([0.0, 0.01])
             ds.append(SL.finish_dataset(d, cfg["mat"]))
         cases.append({"cfg": cfg, "datasets": ds, "tier": tier,
                       "desc": {"n_datasets": k, "any_xoffset": any(d["X"] is not None for d in ds),
